@@ -13,14 +13,14 @@
 
 enum { S_SET_STR = 1, S_INSERT_CH, S_INSERT_STR_N, S_INSERT_STR, S_INSERT, S_APPEND, S_APPEND_CH, S_APPEND_STR_N,
        S_APPEND_STR, S_ERASE, S_SUBSTR, S_RESIZE, S_RESERVE, S_SWAP, S_CLEAR,
-       S_FIND_CH, S_FIND_STR, S_FIND, S_COMPARE, S_COMPARE_STR, S_AT };
+       S_FIND_CH, S_FIND_STR, S_FIND, S_COMPARE, S_COMPARE_STR, S_AT, S_CHURN };
 
 static const char *s_opname(int k)
 {
     static const char *n[] = { "?", "set_str", "insert_ch", "insert_str_n", "insert_str", "insert", "append", "append_ch",
         "append_str_n", "append_str", "erase", "substr", "resize", "reserve", "swap", "clear", "find_ch", "find_str",
-        "find", "compare", "compare_str", "at" };
-    return (k >= 1 && k <= S_AT) ? n[k] : "?";
+        "find", "compare", "compare_str", "at", "churn" };
+    return (k >= 1 && k <= S_CHURN) ? n[k] : "?";
 }
 
 enum { CF_NS, CF_JUNK, CF_RPOLICY, CF_BUDGET, CF_MAXLEN, CF_WIDE_PM };
@@ -468,6 +468,26 @@ static void s_once(const plan_t *p)
             PROBE("compare"); EVT("compare", d, (uint64_t)sgn(ires), 0);
             break;
         }
+        case S_CHURN: {
+            /* the n-th repetition: one character is appended and erased again 254 ... 65 536 times in a row; the string
+             * must be what it was (the audit below compares it with the unchanged model) */
+            static const unsigned reps[] = { 254, 255, 256, 65534, 65535, 65536 };
+            unsigned n = reps[o->a[1] % 6], q; int bad = 0;
+            if (p->mode == 16 || size + 1 > maxlen) { EVT("skip", 0, 0, 0); break; }
+            g_cur_ctx = n > 60000 ? "churn-2^16" : "churn-2^8";
+            if (w) TRY(cstl_wstring_reserve(&ws[d], size + 1)); else TRY(cstl_string_reserve(&ns[d], size + 1));
+            if (X_cap(w, d) < size + 1) { EVT("skip", 0, 0, 0); break; }
+            g_inlib = 1;
+            for (q = 0; q < n && !bad; q++) {
+                if (w) { cstl_wstring_append_ch(&ws[d], 1, L'q'); if (cstl_wstring_size(&ws[d]) != size + 1) bad = 1; cstl_wstring_erase(&ws[d], size, 1); if (cstl_wstring_size(&ws[d]) != size) bad = 2; }
+                else { cstl_string_append_ch(&ns[d], 1, 'q'); if (cstl_string_size(&ns[d]) != size + 1) bad = 1; cstl_string_erase(&ns[d], size, 1); if (cstl_string_size(&ns[d]) != size) bad = 2; }
+            }
+            g_inlib = 0;
+            if (bad) VIOL("churn", "repetition %u of append-one / erase-one left size %zu (was %zu)", q, X_size(w, d), size);
+            PROBE(n > 60000 ? "churn_2^16" : "churn_2^8");
+            EVT("churn", d, n, size);
+            break;
+        }
         case S_AT: {
             static const void *pp; size_t idx;
             switch (o->a[1] % 5) { case 0: idx = size; break; case 1: idx = size + 1; break; case 2: idx = SIZE_MAX; break; case 3: idx = SIZE_MAX - 1; break; default: idx = size + 2; }
@@ -579,7 +599,9 @@ static void s_gen_main(prng_t *r, int mode, plan_t *p)
                  : x < 40 ? S_APPEND : x < 44 ? S_APPEND_CH : x < 47 ? S_APPEND_STR_N : x < 50 ? S_APPEND_STR
                  : x < 60 ? S_ERASE : x < 67 ? S_SUBSTR : x < 72 ? S_RESIZE : x < 76 ? S_RESERVE : x < 79 ? S_SWAP : x < 81 ? S_CLEAR
                  : x < 86 ? S_FIND_CH : x < 91 ? S_FIND_STR : x < 94 ? S_FIND : x < 97 ? S_COMPARE : S_COMPARE_STR;
-        op_t *o = plan_add(p, kind);
+        op_t *o;
+        if (kind == S_COMPARE_STR && mode == 10 && prng_chance(r, 1, 40)) kind = S_CHURN;
+        o = plan_add(p, kind);
         o->a[0] = (prng_below(r, 1000) < wide_pm ? 1 : 0) | prng_below(r, 3) << 1 | prng_below(r, 3) << 8;
         o->a[1] = prng_below(r, 40); o->a[2] = prng_next(r) >> 8; o->a[3] = prng_next(r) >> 8;
         o->a[4] = prng_below(r, 24); o->a[5] = prng_next(r) >> 8;
